@@ -77,7 +77,7 @@ where
     let mut acc = Acc::default();
     let mut rng = crate::mon::case_rng(seed, 20_001, case);
     let bset = gen::boundary_set();
-    let opts = GenOpts { n_ops: rng.gen_range(5..if quick { 120 } else { 500 }), lookups: false, hashing: rng.gen_bool(0.5), extension: true, max_table_len: 0, only_base2: false };
+    let opts = GenOpts { n_ops: rng.gen_range(5..if quick { 120 } else { 500 }), lookups: case % 4 == 2, hashing: rng.gen_bool(0.5), extension: true, max_table_len: 50, only_base2: false };
     let (prog_a, inputs) = circ::gen_program(&mut rng, &bset, &opts);
     let config = crate::props::c06::inner_config(&mut rng);
     // sibling circuit B: one more constant, same shape
@@ -104,6 +104,9 @@ where
         }
     };
     acc.c("conditional.outer_circuits");
+    if !a.prog.tables.is_empty() {
+        acc.c("conditional.inner_shapes_with_lookup_tables");
+    }
     acc.keys.push(format!("cond|{desc}"));
     let (vda, vdb) = (a.built.data.verifier_only.clone(), b.built.data.verifier_only.clone());
     // invalid variants: a value inside the proof changed (shape intact, still assignable)
